@@ -14,14 +14,15 @@ def plan(tier, seed):
     specs = [(1, 1), (2, 2), (3, 2), (4, 2), (5, 1), (6, 1)] if tier == 'quick' else \
             [(1, 2), (2, 3), (3, 3), (4, 2), (5, 2), (6, 1), (7, 1)]
     return {
-        'chunks': sweep.shape_chunks(specs, per_chunk=60),
+        'chunks': sweep.shape_chunks(specs, per_chunk=60, big=True) + [{'kind': 'clipipe'}],
         'rule': 'every hierarchy over n tokens (the root then has every mix of token and constituent '
                 'children: adjacent, interleaved, inside gaps, at the edges) with up to u unary insertions; '
                 'complete parent map after root_attach compared with the set-based reference. '
                 'non-trivial = distinct trees in which the reference re-attaches at least one root child',
         'bound': ', '.join('n=%d:u<=%d' % s for s in specs),
         'exhaustive': True,
-        'assumptions': ['labels unique per node; edges drawn from a 3-letter alphabet by position'],
+        'assumptions': ['driver differential (vt/clipipe.py): `treetools transform` with the pipelines that involve this operation, with and without --split, on a six-sentence corpus must write what the named functions give when applied by the harness in the given order',
+                        'labels unique per node; edges drawn from a 3-letter alphabet by position'],
     }
 
 
@@ -186,11 +187,19 @@ def check_tree(mtj, order=None, pre=None):
 
 
 def check_case(case):
+    if 'clipipe' in case:
+        from .. import clipipe
+        return clipipe.replay(case)
     with quiet():
         return check_tree(case['mt'], case.get('order'), case.get('pre'))[0]
 
 
 def run_chunk(chunk):
+    if chunk.get('kind') == 'clipipe':
+        from .. import clipipe
+        res = Result()
+        clipipe.run_property(ID, res)
+        return res
     res = Result()
     with quiet():
         for sh, k in sweep.iter_shapes(chunk):
